@@ -75,6 +75,10 @@ class Gen:
         if c=='var':
             if r.random()<0.03: return b.add(ty='var', name='undeclared_zz')
             return b.add(ty='var', name=r.choice(vars_))
+        if c=='bin' and getattr(self,'objects',False) and r.random()<0.12:
+            # `in`: keys that are own, inherited (toString), array indices / length, or absent
+            left=b.add(ty='str', cs=cs(r.choice(['a','b','k1','0','1','2','length','toString','push','zz']))) if r.random()<0.7 else (b.add(ty='num', v=r.choice([0,1,2,5])) if r.random()<0.6 else self.expr(sc,d-1))
+            return b.add(ty='bin', op='in', a=left, b=self.expr(sc,d-1))
         if c=='bin':
             op=r.choice(['+','+','-','*','%','<','<=','>','>=','==','!=','===','!=='])
             return b.add(ty='bin', op=op, a=self.expr(sc,d-1), b=self.expr(sc,d-1))
